@@ -364,8 +364,8 @@ def run(ctx):
                 ">=1 tun write, and (event class, netmask, -c) of histories with >=1 judged delivery and >=3 refusals.")
     res.assumptions = ["behaviour at exactly 60 s of silence is not asserted (the property does not pin the instant)",
                        "a correct raw login from another address is the sanctioned way to rebind a session and is followed, not flagged"]
-    npair = ctx.pick(160, 5000)
-    nhist = ctx.pick(160, 5000)
+    npair = ctx.pick(320, 25000)
+    nhist = ctx.pick(320, 25000)
     rng = random.Random(ctx.seed * 4567 + 4)
     plist = []
     for i in range(npair):
